@@ -11,7 +11,7 @@ RULE = ("field: EVERY (13 USAGE spellings x unsigned/signed x (m,n) with 1<=m+n<
         "JSONSchemaMakerExtendedVocabulary and type(EBCDIC().nav(...).name(f).value()) on a record holding the mainframe encoding of a random value "
         "(the judge checks the picture text IS the printed picture and the bytes ARE the specification's encoding); text X(k)/A(k). "
         "Every copybook holds SEVERAL 01 records that declare the same data names (FLD, FILLER; N<id> in trees) with other pictures, usages and "
-        "structure; the record of interest is not the first (streams field-other-record / field-filler / tree-first-record / tree-third-record look at "
+        "structure, and some fields carry clauses that do not affect storage (BLANK WHEN ZERO, JUSTIFIED RIGHT, VALUE); data names of tree items are spelled in upper, mixed and lower case; the record of interest is not the first (streams field-other-record / field-filler / tree-first-record / tree-third-record look at "
         "the other positions and at the FILLER item); the extended generator is ONE maker for all records as schema_iter has; ONE EBCDIC() serves "
         "every value read and size fallback of the run. Tree documents are compared with the lengths they STATE (minLength = maxLength). "
         "tree: random record descriptions of C01's generator (+ FILLER redefiners) -> emitted schema compared with the model's build, "
@@ -161,11 +161,21 @@ def field_copybook(c):
     for i, (u, pic, fk, no_usage) in enumerate(recs):
         lines.append(f"       01  R{i}.")
         fld = ["           05  FLD"]
-        if no_usage:
-            fld.append(f"               PIC {pic_text(pic)}.")
-        else:
-            fld.append(f"               PIC {pic_text(pic)}")
-            fld.append(f"               USAGE {SPELLINGS[u]}.")
+        # clauses that do not affect storage, on some fields (chosen from the case's seed): they must change nothing
+        extra = []
+        h = (c.get("seed", 0) + 5 * i) % 7
+        if pic[0] == 0:
+            if h == 1 and u == DISPLAY and not pic[1]:
+                extra.append("BLANK WHEN ZERO")
+            elif h == 2:
+                extra.append("VALUE ZERO")
+        elif h == 1:
+            extra.append("JUSTIFIED RIGHT")
+        elif h == 2:
+            extra.append("VALUE SPACES")
+        clauses = [f"PIC {pic_text(pic)}"] + ([] if no_usage else [f"USAGE {SPELLINGS[u]}"]) + extra
+        for j, cl in enumerate(clauses):
+            fld.append("               " + cl + ("." if j == len(clauses) - 1 else ""))
         filler_pic = pic_text(c["pic"]) if (filler_first and i == pos) else f"X({fk})"
         fil = ["           05  FILLER", f"               PIC {filler_pic}."]
         lines += (fil + fld) if (filler_first and i == pos) else (fld + fil)
